@@ -107,7 +107,10 @@ def judge_c13(scn, run) -> Tuple[List[tuple], Dict[str, int]]:
         d = localtime.local_dt(z, o["wall"])
         wd = d.weekday()
         nm = d.hour * 60 + d.minute
-        sm = int(o["start"][:2]) * 60 + int(o["start"][3:])
+        _h, _m = o["start"].split(":")
+        sm = int(_h) * 60 + int(_m)
+        if len(_h) < 2:
+            cnt(c, "probe:start-hour-unpadded")
         days = {DAY_IDX[n] for n in o["days"]}
         import datetime as _dt
         utc_wd = _dt.datetime.fromtimestamp(o["wall"], _dt.timezone.utc).weekday()
